@@ -1119,6 +1119,9 @@ class PDFPageInterpreter:
             if settings.STRICT:
                 raise PDFInterpreterError("No font specified!")
             return
+        if not isinstance(seq, (list, tuple)):
+            log.warning(f"Cannot show text because {seq!r} is not an array")
+            return
         assert self.ncs is not None
         self.device.render_string(
             self.textstate,
